@@ -179,6 +179,9 @@ func (r *grammarOptimizer) optimize(expr0 Expression) Visitor {
 		expr.Expr = r.optimizeRule(expr.Expr)
 	case *OneOrMoreExpr:
 		expr.Expr = r.optimizeRule(expr.Expr)
+	case *RecoveryExpr:
+		expr.Expr = r.optimizeRule(expr.Expr)
+		expr.RecoverExpr = r.optimizeRule(expr.RecoverExpr)
 	case *Rule:
 		r.rule = expr.Name.Val
 		expr.Expr = r.optimizeRule(expr.Expr)
@@ -334,6 +337,13 @@ func cloneExpr(expr Expression) Expression {
 		return &OneOrMoreExpr{
 			Expr: cloneExpr(expr.Expr),
 			p:    expr.p,
+		}
+	case *RecoveryExpr:
+		return &RecoveryExpr{
+			Expr:        cloneExpr(expr.Expr),
+			RecoverExpr: cloneExpr(expr.RecoverExpr),
+			Labels:      append([]FailureLabel{}, expr.Labels...),
+			p:           expr.p,
 		}
 	case *SeqExpr:
 		exprs := make([]Expression, 0, len(expr.Exprs))
